@@ -125,7 +125,9 @@ func isHex(s string) bool {
 // DecodeBIP276 accepts exactly: non-empty prefix, ':', 4 hex digits, an even,
 // non-zero number of data hex digits, 8 checksum digits matching the text.
 func DecodeBIP276(s string) (*BIP276, error) {
-	i := strings.IndexByte(s, ':')
+	// everything behind the separating colon is hex digits, so the separator is
+	// the LAST colon of the text; a prefix may itself contain colons
+	i := strings.LastIndexByte(s, ':')
 	if i <= 0 {
 		return nil, errors.New("no prefix")
 	}
